@@ -34,7 +34,9 @@ def do_update(op):
     from . import mini
 
     run, tgt, alg, content = op
-    a = mini.Alg(alg, svs=[mini.SV('s', values={'x': mini.Val(content)})])
+    vals = {'x': mini.Val(content)} if not isinstance(content, tuple) else {
+        k: mini.Val(c) for k, c in zip('xyz', content)}
+    a = mini.Alg(alg, svs=[mini.SV('s', values=vals)])
     b = mini.Bot('t', run, tgt, [a])
     DBI()._DBI__reopened = True
     try:
@@ -52,13 +54,18 @@ def expected_name(content):
     return hashlib.md5(data).hexdigest() + '_' + hashlib.sha1(data).hexdigest()
 
 
+def contents(op):
+    c = op[3]
+    return list(c) if isinstance(c, tuple) else [c]
+
+
 def oracle(ctx, w, ops, flags, rep, phase, allow_leftovers=False):
     import dawgie.context
     from dawgie.db.shelve.state import DBI
 
     dbs = dawgie.context.data_dbs
     files = sorted(f for f in os.listdir(dbs) if os.path.isfile(os.path.join(dbs, f)))
-    names = {expected_name(c) for _r, _t, _a, c in ops}
+    names = {expected_name(c) for op in ops for c in contents(op)}
     if not allow_leftovers and set(files) != names:
         ctx.violation(f'C07/single-copy/{phase}',
                       f'store holds {len(files)} files {files}, distinct contents {sorted(names)}', rep)
@@ -77,22 +84,25 @@ def oracle(ctx, w, ops, flags, rep, phase, allow_leftovers=False):
     # catalogue content: last write per key wins (crash-free histories only:
     # the statement does not promise that entries survive a crash)
     latest = {}
-    for run, tgt, alg, c in ops:
-        latest[(run, tgt, alg)] = expected_name(c)
+    for op in ops:
+        for k, c in zip('xyz', contents(op)):
+            latest[(op[0], op[1], op[2], k)] = expected_name(c)
     if not allow_leftovers and sorted(prime.values()) != sorted(latest.values()):
         ctx.violation(f'C07/catalogue/{phase}',
                       f'catalogue values {sorted(prime.values())}, expected {sorted(latest.values())}', rep)
     if flags is not None:
         seen = set()
-        for (run, tgt, alg, c), fl in zip(ops, flags):
-            want_new = expected_name(c) not in seen
-            seen.add(expected_name(c))
+        for op, fl in zip(ops, flags):
+            want = []
+            for c in contents(op):
+                want.append(expected_name(c) not in seen)
+                seen.add(expected_name(c))
             got = [new for _n, new in fl]
-            if got != [want_new]:
+            if got != want:
+                extra = [g and not w_ for g, w_ in zip(got, want)]
                 ctx.violation(
-                    f'C07/novelty-flag/{"reported-new-but-seen" if got == [True] else "reported-old-but-new"}/{phase}',
-                    f'update {(run, tgt, alg, c)} reported {fl}, content {"never" if want_new else "already"} stored',
-                    rep)
+                    f'C07/novelty-flag/{"reported-new-but-seen" if any(extra) else "reported-old-but-new"}/{phase}',
+                    f'update {op} reported {fl}, store says new={want}', rep)
 
 
 def alphabet(tier):
@@ -101,12 +111,20 @@ def alphabet(tier):
     return [(r, t, a, c) for r in (1, 2) for t in ('A', 'B') for a in ('a', 'b') for c in ('c0', 'c1')]
 
 
+def multi_alphabet():
+    '''state vectors with two values whose contents repeat across updates'''
+    return [(r, 'A', a, (cx, cy)) for r in (1, 2) for a in ('a', 'b')
+            for cx in ('c0', 'c1', 'c2') for cy in ('c0', 'c1', 'c2')]
+
+
 def work_free(args):
     tier, seed, shard, nshards, depth = args
     from . import world
 
     ctx = common.Ctx('C07', tier, seed, LEVEL)
     alpha = alphabet(tier)
+    if depth < 0:
+        alpha, depth = multi_alphabet(), -depth
     n = -1
     shapes = set()
     for size in range(1, depth + 1):
@@ -123,7 +141,7 @@ def work_free(args):
                     ctx.count('updates')
                     oracle(ctx, w, ops[:i + 1], flags, rep, 'crash-free')
                 ctx.count('histories')
-                shapes.add(tuple(c for _r, _t, _a, c in ops))
+                shapes.add(tuple(op[3] for op in ops))
             finally:
                 w.close()
             if n % 211 == 0:
@@ -359,7 +377,8 @@ def run(ctx):
     depth = 3 if ctx.quick() else 4
     nsh = 32
     shapes = 0
-    for r in common.pmap(work_free, [(ctx.tier, ctx.seed, s, nsh, depth) for s in range(nsh)]):
+    for r in common.pmap(work_free, [(ctx.tier, ctx.seed, s, nsh, depth) for s in range(nsh)]
+                         + [(ctx.tier, ctx.seed, s, nsh, -2) for s in range(nsh)]):
         ctx.merge(r)
         shapes += r['shapes']
     states = set()
@@ -377,7 +396,7 @@ def run(ctx):
         'evaluations': c.get('updates', 0) + c.get('crash_points', 0),
         'distinct_nontrivial': c.get('crash_points', 0),
         'rule': f'crash-free: every sequence of <= {depth} updates over the alphabet (8 quick / 16 thorough ops); '
-                'crash: every file-system call index of the last update of each selected history '
+                'plus every pair of updates of two-value state vectors over 3 contents; crash: every file-system call index of the last update of each selected history '
                 f'({len(crash_histories(ctx.tier))} histories); distinct_nontrivial = crash points injected',
         'crash_histories': c.get('crash_histories', 0),
         'crash_points': c.get('crash_points', 0),
